@@ -99,6 +99,8 @@ int main(int argc, char ** argv) {
             POMDP::Model<MDP::Model> dense(t.O, t.Ob, t.S, t.A, t.T, t.R, t.g);
             if (repr == "dense") solve(alg, dense, h, o);
             else if (repr == "generic") { GenericPOMDP g(dense); solve(alg, g, h, o); }
+            else if (repr == "mixed1") { POMDP::Model<MDP::SparseModel> x(dense); solve(alg, x, h, o); }
+            else if (repr == "mixed2") { POMDP::SparseModel<MDP::Model> x(dense); solve(alg, x, h, o); }
             else { POMDP::SparseModel<MDP::SparseModel> sp(dense); solve(alg, sp, h, o); }
         } else if (kind == "rtbss") {   // rtbss <dense|sparse> <h> <maxR> <pomdp> <belief>
             const std::string repr = c.next(); unsigned h = c.nextSize(); double maxR = c.nextDouble();
@@ -107,6 +109,8 @@ int main(int argc, char ** argv) {
             POMDP::Model<MDP::Model> dense(t.O, t.Ob, t.S, t.A, t.T, t.R, t.g);
             if (repr == "dense") { POMDP::RTBSS s(dense, maxR); auto [a, v] = s.sampleAction(b, h); o << a << v; }
             else if (repr == "generic") { GenericPOMDP g(dense); POMDP::RTBSS s(g, maxR); auto [a, v] = s.sampleAction(b, h); o << a << v; }
+            else if (repr == "mixed1") { POMDP::Model<MDP::SparseModel> x(dense); POMDP::RTBSS s(x, maxR); auto [a, v] = s.sampleAction(b, h); o << a << v; }
+            else if (repr == "mixed2") { POMDP::SparseModel<MDP::Model> x(dense); POMDP::RTBSS s(x, maxR); auto [a, v] = s.sampleAction(b, h); o << a << v; }
             else { POMDP::SparseModel<MDP::SparseModel> sp(dense); POMDP::RTBSS s(sp, maxR); auto [a, v] = s.sampleAction(b, h); o << a << v; }
         } else throw std::logic_error("unknown case kind " + kind);
     });
